@@ -312,6 +312,10 @@ class Ctx:
                 f.write("#audit_module %s\n" % m)
         rc2, out2 = self.lake_build(["IstioModel.Common.Audit"])
         rc2, out2, dt = sh(["lake", "env", "lean", audit], cwd=LEAN, timeout=1200)
+        if rc2 == 124:
+            # seconds on a calm machine; a time-out is the machine (or a concurrent lake build holding the lock)
+            self.count("lean-audit.timeout-repeated")
+            rc2, out2, dt = sh(["lake", "env", "lean", audit], cwd=LEAN, timeout=3600)
         self.checker_cmds.append("lake env lean %s  (#audit_module: axioms of every theorem)" % os.path.relpath(audit, ROOT))
         thms = []
         badax = []
